@@ -11,6 +11,7 @@ def run(ctx, rep):
     regexrules.rule_lastindex_is_match_end(ctx, rep, "C20-R4")
     regexrules.rule_split_separator_discipline(ctx, rep, "C20-R5")
     regexrules.rule_start_position_inside_subject(ctx, rep, "C20-R9")
+    regexrules.rule_scan_leaves_lastindex_zero(ctx, rep, "C20-R13")
     rep.undecided += [
         "the lastIndex state machine over histories of exec/test/assignment",
         "replacement-template expansion ($$, $&, $n ...) and split/match result values",
